@@ -61,7 +61,12 @@ func pkSelect(db *sdb.Database, s *sdb.Schema, key Key, cb RowCB, columns []stri
 		if len(key) == 0 {
 			return errors.New("invalid key")
 		}
-		rowid, ok := key[0].(int64)
+		// a Key takes the Go integer types
+		dbk, err := asDbKey(key[:1], []sdb.IndexColumn{{}})
+		if err != nil {
+			return errors.New("invalid key")
+		}
+		rowid, ok := dbk[0].V.(int64)
 		if !ok {
 			return errors.New("invalid key")
 		}
